@@ -43,6 +43,14 @@ Section PjsonInd.
     end.
 End PjsonInd.
 
+(** What the Rust type guarantees: the keys of every object are strictly increasing (BTreeMap). *)
+Fixpoint pwfb (v : pjson) : bool :=
+  match v with
+  | PArr l => forallb pwfb l
+  | PObj m => sortedb m && forallb (fun kv => pwfb (snd kv)) m
+  | _ => true
+  end.
+
 (** [ScalarJsonValue] (flattened_json.rs:95-108): the values a condition can compare with. *)
 Inductive scalar : Type :=
 | SNull
